@@ -107,11 +107,11 @@ def rel_C10(f):
 
 
 def rel_C11(f):
-    return f[0] in ("np.y", "np.meta", "fn.out") or f[0] in ALWAYS
+    return f[0] in ("np.y", "np.meta", "fn.out", "np.feedback", "np.feedback_ok") or f[0] in ALWAYS
 
 
 def rel_C12(f):
-    return f[0] in ("np.repeat", "np.heap") or f[0] in ALWAYS
+    return f[0] in ("np.repeat", "np.heap", "np.feedback", "np.feedback_ok") or f[0] in ALWAYS
 
 
 def rel_C13(f):
@@ -325,16 +325,18 @@ PLANS = {
                 thorough=dict(n=4, m=4, variants=2, generic=1, corners=2, rand=300)),
     "C04": dict(rel=rel_C04, traj=True, derive=("perm", "names"),
                 derived_want={"np": False, "fn": fns((0, 1, 2), more_out=(True,), generic_calls=2) + fns((-1, 3), more_out=(False,), syms=("SX",))}, also={"opts": dict(variants=1, generic=1, corners=0)}, want=lambda c: {"np": False, "fn": fns((-1, 0, 1, 2, 3), more_out=(False, True), generic_calls=2)
+                                             # the caller's own symbols as initial conditions ("v" spelled before "rho"), after an ordinary step
+                                             + fns((0, 2), more_out=(True,), generic_calls=2, pre="ident")
                                              + param_fns(c, levels=(0, 1, 2), more_out=(True,), nsets=1)},
                 quick=dict(n=3, m=3, variants=1, generic=1, corners=0, rand=30, nderive=2),
                 thorough=dict(n=4, m=4, variants=2, generic=1, corners=0, rand=200, nderive=1)),
-    "C11": dict(rel=rel_C11, family="opts", want={"np": True, "np_plain": True, "fn": fns((0,)) + fns((2,), syms=("SX",)) + fns((1,), more_out=(True,), syms=("MX",))
+    "C11": dict(rel=rel_C11, family="opts", want={"np": True, "np_plain": True, "feedback": True, "fn": fns((0,)) + fns((2,), syms=("SX",)) + fns((1,), more_out=(True,), syms=("MX",))
                                                               # initial conditions supplied by the caller as EXPRESSIONS of its own symbols
                                                               + fns((0,), syms=("MX",), generic_calls=2, pre="fmaxm20") + fns((1,), syms=("SX",), generic_calls=2, pre="affine")},
                 quick=dict(n=3, m=3, variants=1, generic=4, corners=4, rand=0),
                 thorough=dict(n=4, m=4, variants=1, generic=6, corners=13, rand=0)),
     "C12": dict(rel=rel_C12, also={"opts": dict(variants=1, generic=1, corners=0), "neg": dict(variants=1, generic=1, corners=0)},
-                want={"np": True, "pure": True, "fn": []},
+                want={"np": True, "pure": True, "feedback": True, "fn": []},
                 quick=dict(n=3, m=3, variants=2, generic=1, corners=3, rand=60),
                 thorough=dict(n=4, m=4, variants=2, generic=2, corners=13, rand=600)),
     "C13": dict(rel=rel_C13, want={"np": False, "spy": True, "fn": []},
